@@ -109,7 +109,7 @@ func findContractFiles(repo, prelude string) []string {
 		if info.IsDir() && (info.Name() == ".git" || info.Name() == "test" || info.Name() == "mage") {
 			return filepath.SkipDir
 		}
-		if !info.IsDir() && info.Name() == "zz_contracts_verif.go" {
+		if !info.IsDir() && strings.HasPrefix(info.Name(), "zz_contracts") && strings.HasSuffix(info.Name(), "_verif.go") {
 			out = append(out, path)
 		}
 		return nil
